@@ -30,7 +30,7 @@ Fixpoint val_same (a b : val) {struct a} : bool :=
 Definition exn_same (a b : exn) : bool :=
   match a, b with
   | IndexError, IndexError | TypeError, TypeError | ValueError, ValueError | OverflowError, OverflowError
-  | ZeroDivisionError, ZeroDivisionError | RuntimeError, RuntimeError | KeyError, KeyError | ArgumentError, ArgumentError => true
+  | ZeroDivisionError, ZeroDivisionError | RuntimeError, RuntimeError | KeyError, KeyError | ArgumentError, ArgumentError | AssertionError, AssertionError => true
   | _, _ => false
   end.
 
